@@ -83,7 +83,11 @@ func VerifC08Graveyard() {
 		case 0, 1: // insert or delete one of two keys
 			k := []byte{byte('a' + vnd.IntRange("key", 0, 1))}
 			w := d.db.WriteTxn(t)
-			if vnd.Bool("insert") {
+			if vnd.Param("CAS", 1) == 1 && vnd.Bool("cas") {
+				// an always-rejected compare-and-swap changes nothing
+				_, _, err := t.CompareAndSwap(w, 1<<40, &vobj{id: k})
+				vnd.Assert(err != nil, "C08.harness.cas-rejected")
+			} else if vnd.Bool("insert") {
 				t.Insert(w, &vobj{id: k})
 				committed.rev++
 				committed.revs.Put(k, committed.rev)
